@@ -15,6 +15,7 @@ from ..core import where_of, trace_of
 from ..interp import fmt, contains, subterms
 from ..model import AnalysisError
 from .. import q
+from .. import roles
 from .c03 import terminal_on
 
 KINDS = ("cancelled", "exception", "truthy", "falsy")
@@ -48,8 +49,7 @@ def check(ctx, rep):
     base = prog.cls("BoolOperation")
     for cname, op in (("OrOperation", "or"), ("AndOperation", "and")):
         ci = prog.cls(cname)
-        o, hd = ci.lookup("handle_done")
-        rep.require(hd is not None, "%s.handle_done not found" % cname)
+        hd = roles.input_callback(ctx, ci)
         ps, it = ctx.paths(hd, ci, depth=6)
         F = ("param", hd.params[1])
         OUT = ("attr", ("param", "self"), "out")
@@ -149,8 +149,8 @@ def check(ctx, rep):
         it_term = q.recv(r)[1]
         rep.ob("R-FANOUT", "BoolOperation.__init__: a done-callback per input", it_term == ("param", init.params[1]), "callbacks are registered over %s, not over the inputs" % fmt(it_term), where_of(init, r.node))
         cb = r.d["args"][0]
-        inner = p.heap.get(("attr", cb, "_WeakCallback__delegate")) if isinstance(cb, tuple) and cb[0] == "new" else cb
-        rep.ob("R-FANOUT", "BoolOperation.__init__: the callback is handle_done", inner == ("attr", ("param", "self"), "handle_done"), "registered callback is %s" % fmt(inner), where_of(init, r.node))
+        inner = roles.unwrap(ctx, p, cb, it)
+        rep.ob("R-FANOUT", "BoolOperation.__init__: the callback is a method of the operation", isinstance(inner, tuple) and inner[0] == "attr" and inner[1] == ("param", "self") and prog.cls("OrOperation").lookup(inner[2])[1] is not None, "registered callback is %s" % fmt(inner), where_of(init, r.node))
         outv = p.heap.get(("attr", ("param", "self"), "out"), ("attr", ("param", "self"), "out"))
         okc = any(c.d["args"] in ((("attr", ("param", "self"), "out"), q.recv(r)), (outv, q.recv(r))) for c in chains)
         rep.ob("R-FANOUT", "BoolOperation.__init__: chain_cancel(output, input) per input", okc, "cancelling the output would not reach this input", where_of(init, r.node))
@@ -190,7 +190,7 @@ def _chain_cancel(ctx, rep):
         if not ok:
             continue
         cb = regs[0].d["args"][0]
-        inner = p.heap.get(("attr", cb, "_WeakCallback__delegate")) if isinstance(cb, tuple) and cb[0] == "new" else cb
+        inner = roles.unwrap(ctx, p, cb, it)
         if not (isinstance(inner, tuple) and inner[0] == "closure"):
             rep.ob("R-FANOUT", "chain_cancel callback cancels the inner future iff the outer was cancelled", False, "callback %s not analysable" % fmt(inner), where_of(cc))
             continue
@@ -207,7 +207,7 @@ def _chain_cancel(ctx, rep):
 
 
 def _no_init_inline(callee, ev, path):
-    return callee.name in ("__init__",) and callee.owner is not None and callee.owner.name in ("WeakCallback",)
+    return roles.inline_wrapper_ctor(callee, ev, path)
 
 
 def _is_remaining(it_term):
